@@ -20,6 +20,8 @@ use std::cmp::Ordering;
 mod emitx;
 #[path = "c10_files.rs"]
 mod filesx;
+#[path = "c10_num.rs"]
+mod numx;
 
 // ------------------------------------------------------------------------------------------------
 // exact arithmetic reference (natural numbers, little-endian base 2^32)
@@ -1188,6 +1190,23 @@ fn run_inner(args: &Args, out: &mut Out) {
                 out.case(&line, &obs, &orc);
                 continue;
             }
+            if f[0] == "C10.num" {
+                // the follower is written `d<hex>` so that an empty one is not an empty field
+                let nm = f.get(1).and_then(|h| unhex(h)).and_then(|b| String::from_utf8(b).ok());
+                let dl = f.get(2).and_then(|h| h.strip_prefix('d')).and_then(|h| if h.is_empty() { Some(Vec::new()) } else { unhex(h) }).and_then(|b| String::from_utf8(b).ok());
+                let pf = match f.get(3) {
+                    None => Some(String::new()),
+                    Some(h) => h.strip_prefix('p').and_then(|h| unhex(h)).and_then(|b| String::from_utf8(b).ok()),
+                };
+                match (nm, dl, pf) {
+                    (Some(nm), Some(dl), Some(pf)) => {
+                        let (obs, orc) = numx::run_num(&nm, &dl, &pf, &mut hist);
+                        out.case(&line, &obs, &orc);
+                    }
+                    _ => out.case(&line, "", "SKIP:bad request"),
+                }
+                continue;
+            }
             if f.len() == 3 && f[0] == "C10.lex" {
                 let (Some(fl), Some(bytes)) = (parse_flags(f[1]), unhex(f[2])) else {
                     out.case(&line, "", "SKIP:bad request");
@@ -1290,9 +1309,11 @@ fn run_inner(args: &Args, out: &mut Out) {
         emit(&s, &Flags { trail: true, inc: false, base: 0 }, out, &mut hist);
         texts += 1;
     }
+    // (3c) one numeral, one token: every spelling family of the numeral grammar against the tokenisation reference
+    let numerals = numx::generate(args, &mut rng, out, &mut hist);
     // (4), (5) literals through the whole compiler and through the formatter alone
     let (emitted, formatted) = emitx::generate(args, &mut rng, out, &mut hist);
     // (6) multi-file inputs: spans of tokens from included files, macro bodies, defines and `##` results
     let files_cases = filesx::generate(args, &mut rng, out, &mut hist);
-    out.stat(&format!("{{\"texts\":{},\"emitted\":{},\"formatted\":{},\"multi_file\":{},\"hist\":{}}}", texts, emitted, formatted, files_cases, hist.json()));
+    out.stat(&format!("{{\"texts\":{},\"numerals\":{},\"emitted\":{},\"formatted\":{},\"multi_file\":{},\"hist\":{}}}", texts, numerals, emitted, formatted, files_cases, hist.json()));
 }
